@@ -582,6 +582,23 @@ fn corpus(w: &mut CaseWriter, dist: &mut Dist, hits: &mut Hits, r: &mut Rng) {
         all_strategies(&mut s, &C::Cmp(2, 0, V::Int(5)), r, dist, hits);
         finish(&s, w, "corpus F-C04-null");
     }
+    // NULL by omission vs explicit NULL under a hash / ordered index
+    {
+        let mut s = new_scen(vec![(0, true), (0, true)]);
+        do_index(&mut s, 0, 0, dist);
+        do_index(&mut s, 0, 1, dist);
+        do_index(&mut s, 1, 1, dist);
+        do_insert(&mut s, vec![V::Null, V::Null], dist); // c0 explicit NULL, c1 omitted
+        do_insert(&mut s, vec![V::Int(1), V::Int(2)], dist);
+        for c in [C::Cmp(0, 0, V::Null), C::Cmp(0, 1, V::Null), C::Cmp(3, 1, V::Null), C::Cmp(1, 1, V::Null)] {
+            all_strategies(&mut s, &c, r, dist, hits);
+        }
+        do_update(&mut s, &C::Cmp(0, 1, V::Int(2)), vec![(1, V::Null)], dist);
+        all_strategies(&mut s, &C::Cmp(0, 1, V::Null), r, dist, hits);
+        do_delete(&mut s, &C::Cmp(0, 1, V::Null), dist);
+        all_strategies(&mut s, &C::Cmp(0, 1, V::Null), r, dist, hits);
+        finish(&s, w, "corpus null-by-omission index");
+    }
     // limit/offset through an index; deleted rows and the vectorised True
     {
         let mut s = new_scen(vec![(0, false), (0, false)]);
